@@ -31,13 +31,19 @@ from props.parts import _c15 as K
 import gen_lib as GL
 
 NS = "EngineModel.Properties.C15Faults."
-LEAN_MODULES = ["Properties.C15Faults"]
+NST = "EngineModel.Properties.C15FaultsTracks."
+LEAN_MODULES = ["Properties.C15Faults", "Properties.C15FaultsTracks"]
+THEOREMS_TRACKS = [NST + t for t in [
+    "v2t_C15_failed_call_restores", "v2t_C15_fault_inside_throws", "v2t_C15_call_under_faults",
+    "v2t_C14_failed_call_unchanged", "v2t_C15_bridge", "v2t_C15_after_faults_inv", "v2t_C15_after_faults_reachable",
+    "v2t_C15_after_faults_no_ub", "v2t_C15_after_faults_no_ub_from", "v2t_C15_after_faults_stale_handle",
+    "v2t_C15_without_scope_counterexample"]]
 THEOREMS = [NS + t for t in [
     "v2c_C15_failed_call_restores", "v2c_C15_fault_inside_throws", "v2c_C15_call_under_faults",
     "v2c_C15_after_faults_inv", "v2c_C15_after_faults_no_ub", "v2c_C15_after_faults_prefix_queries_no_ub",
     "v2c_C15_without_scope_counterexample",
     "v1c_C15_failed_call_restores", "v1c_C15_fault_inside_throws", "v1c_C15_call_under_faults",
-    "v1c_C15_after_faults_inv", "v1c_C15_after_faults_no_ub", "v1c_C15_without_scope_counterexample"]]
+    "v1c_C15_after_faults_inv", "v1c_C15_after_faults_no_ub", "v1c_C15_without_scope_counterexample"]] + THEOREMS_TRACKS
 ASSUMPTIONS = [
     "faults: a failed call is the statement program of the call (the programs C14 proves all-or-nothing: "
     "Db/V2CratesStmts.stmts, Api/CratesV1Stmts.stmts) on the connection model of Spec/Txn.lean under a fault plan — "
@@ -47,6 +53,11 @@ ASSUMPTIONS = [
     "faults: a call that throws by itself from a guard issues a prefix of the program of the successful call; under a "
     "plan the model answers `throw` with the API model's state (the guard's or the fault's exception — the class is "
     "not part of C15); a statement refused by a constraint is a write function answering `none` inside the program",
+    "faults, 2.x tracks: the programs are TracksV2/Stmts.topStmts over the statement-level Track table (C14's: the five "
+    "scoped setters and remove_track at UPDATE / DELETE granularity, the other calls one write); the bridge to the C15 "
+    "track model (v2t_C15_bridge: TDb.step = C15TracksV2.step on the row store the getters read) is a theorem; the "
+    "memberships of a removed track are outside the Track-table model (remove_track = the scope of its DELETE); 1.x "
+    "tracks: fault stream on the harness only",
 ]
 MANIFEST_TEXT = ("Failed calls: for ALL histories of crate / membership calls x ALL fault plans (a statement failing at any "
                  "position of any call, BEGIN / COMMIT included, or refused by a constraint) x ALL arguments the state "
@@ -55,8 +66,16 @@ MANIFEST_TEXT = ("Failed calls: for ALL histories of crate / membership calls x 
                  "all-or-nothing with the reachable-state theorems); without the transaction scope the same move leaves "
                  "a sibling list without a tail and the ordered walk is `ub` (v2c_C15_without_scope_counterexample). "
                  "Tied by a fault stream: every statement position of every mutating crate call on the sanitizer harness, "
-                 "every query through live and stale handles after each failure; for tracks (create / update / setters / remove, "
-                 "duplicate path) the same fault stream on the harness only (no theorem).")
+                 "every query through live and stale handles after each failure.  2.x TRACKS: create_track / update / every "
+                 "setter / remove_track as their C14 statement programs under any fault plans — a failed call leaves the "
+                 "Track table equal to the prior one (v2t_C14_failed_call_unchanged), the statement-level table model IS "
+                 "the C15 track model on the row store the getters read (v2t_C15_bridge), so the state after any history "
+                 "with failures is a state of the fault-free model (v2t_C15_after_faults_reachable) and every getter, "
+                 "snapshot(), every later call under any plan is free of `ub`, removed handles stay invalid "
+                 "(v2t_C15_after_faults_no_ub, v2t_C15_after_faults_stale_handle); without the scope set_relative_path "
+                 "leaves a half-written row (v2t_C15_without_scope_counterexample).  Tracks of both generations are tied "
+                 "by the fault stream on the harness (create / update / setters / remove, duplicate path: a fault at every "
+                 "statement position, then snapshot() and getters of every track); 1.x tracks: no theorem over failures.")
 TRUSTED_EXTRA = []
 
 FAMILIES = {
